@@ -30,3 +30,140 @@
         }
         if N > tail { crate::vcover!(enc != orig); }
     }
+
+    // ---------------------------------------------------------------- BCJReader / BCJWriter state machines
+
+    /// C07.bcj.reader / C05.filter.r / C06.bcjr: the bytes BCJReader yields do not depend on how the caller splits its
+    /// reads: for a 10-byte source (2 ARM groups + 2 tail bytes) read as [a bytes][rest][EOF probe] the output equals the
+    /// decoder filter applied once to the whole stream, the unconverted tail is passed through only at end of input,
+    /// and after EOF every read returns Ok(0). The reader's own asserts never fire.
+    fn bcj_reader_split(a: usize) {
+        let data: [u8; 10] = vk::any();
+        let start: usize = vk::any();
+        vk::assume(start < (1usize << 40) && start % 4 == 0);
+        // expected: filter over the whole stream at once
+        let mut expected = data;
+        let mut f = BCJFilter::new_arm(start, false);
+        let conv = f.code(&mut expected);
+        assert!(conv == 8);
+        let mut r = BCJReader::new_arm(vk::Src::<10>::new(data, 10), start);
+        let mut out = [0u8; 12];
+        let mut got = 0usize;
+        // first read of `a` bytes, then reads of the rest until EOF
+        let n1 = match r.read(&mut out[..a]) { Ok(n) => n, Err(_) => { assert!(false); 0 } };
+        assert!(n1 <= a && n1 >= 1);
+        got += n1;
+        let mut rounds = 0;
+        while rounds < 3 && got < 10 {
+            let n = match r.read(&mut out[got..12]) { Ok(n) => n, Err(_) => { assert!(false); 0 } };
+            got += n;
+            rounds += 1;
+        }
+        assert!(got == 10);
+        let mut i = 0;
+        while i < 10 { assert!(out[i] == expected[i]); i += 1; }
+        assert!(matches!(r.read(&mut out[10..12]), Ok(0)));
+        assert!(matches!(r.read(&mut out[..0]), Ok(0)));
+    }
+    #[kani::proof]
+    #[kani::unwind(12)]
+    //@ERR
+    fn c07_bcj_reader_split_1() { bcj_reader_split(1); }
+    #[kani::proof]
+    #[kani::unwind(12)]
+    //@ERR
+    fn c07_bcj_reader_split_5() { bcj_reader_split(5); }
+    #[kani::proof]
+    #[kani::unwind(12)]
+    //@ERR
+    fn c07_bcj_reader_split_9() { bcj_reader_split(9); }
+
+    /// C05.filter.r: with a source that delivers short reads and then fails at some call, BCJReader returns the source's
+    /// error (kind preserved) and keeps returning an error afterwards; bytes handed out before the error are a prefix of
+    /// the correct output.
+    fn bcj_reader_fault_at(k: usize) {
+        let data: [u8; 10] = vk::any();
+        let mut expected = data;
+        let mut f = BCJFilter::new_arm(0, false);
+        f.code(&mut expected);
+        let mut src = vk::IoAny::<10>::new(data, 10);
+        src.fail_at = k;
+        let mut r = BCJReader::new_arm(src, 0);
+        let mut out = [0u8; 12];
+        let mut got = 0usize;
+        let mut failed = false;
+        let mut rounds = 0;
+        while rounds < 3 {
+            match r.read(&mut out[got..12]) {
+                Ok(n) => { assert!(!failed); got += n; }
+                Err(e) => { assert!(vk::kind_of(&e) == vk::Kind::Unknown); failed = true; }
+            }
+            rounds += 1;
+        }
+        assert!(failed);
+        assert!(got <= 10);
+        let mut i = 0;
+        while i < 10 { if i < got { assert!(out[i] == expected[i]); } i += 1; }
+    }
+    #[kani::proof]
+    #[kani::unwind(12)]
+    //@ERR
+    #[kani::stub(crate::copy_error, crate::vk::err_copy)]
+    fn c05_bcj_reader_fault_0() { bcj_reader_fault_at(0); }
+    #[kani::proof]
+    #[kani::unwind(12)]
+    //@ERR
+    #[kani::stub(crate::copy_error, crate::vk::err_copy)]
+    fn c05_bcj_reader_fault_1() { bcj_reader_fault_at(1); }
+
+    /// C07.bcj.writer (single write): the sink receives the encoder filter applied to the buffer, the unconverted tail raw.
+    #[kani::proof]
+    #[kani::unwind(12)]
+    //@ERR
+    fn c07_bcj_writer_single() {
+        let data: [u8; 10] = vk::any();
+        let start: usize = vk::any();
+        vk::assume(start < (1usize << 40) && start % 4 == 0);
+        let mut expected = data;
+        let mut f = BCJFilter::new_arm(start, true);
+        f.code(&mut expected);
+        let mut w = BCJWriter::new_arm(vk::Sink::<12>::new(), start);
+        assert!(matches!(w.write(&data), Ok(10)));
+        assert!(w.inner.len == 10);
+        let mut i = 0;
+        while i < 10 { assert!(w.inner.buf[i] == expected[i]); i += 1; }
+    }
+
+    /// C07.bcj.writer (two writes) — KNOWN FINDING D17: the tail the filter could not convert in the first write is
+    /// emitted raw and the filter position is not advanced over it, so a++b is not encoded like one write of a++b.
+    #[kani::proof]
+    #[kani::unwind(12)]
+    //@ERR
+    fn kf_c07_bcj_writer_two_writes() {
+        let data: [u8; 10] = vk::any();
+        let mut expected = data;
+        let mut f = BCJFilter::new_arm(0, true);
+        f.code(&mut expected);
+        let mut w = BCJWriter::new_arm(vk::Sink::<12>::new(), 0);
+        assert!(matches!(w.write(&data[..6]), Ok(6)));
+        assert!(matches!(w.write(&data[6..]), Ok(4)));
+        assert!(w.inner.len == 10);
+        let mut i = 0;
+        while i < 10 { assert!(w.inner.buf[i] == expected[i], "two writes differ from one write"); i += 1; }
+    }
+    /// complement of the known finding: writes cut at group boundaries (no unconverted tail left behind) do compose.
+    #[kani::proof]
+    #[kani::unwind(14)]
+    //@ERR
+    fn c07_bcj_writer_two_aligned_writes() {
+        let data: [u8; 12] = vk::any();
+        let mut expected = data;
+        let mut f = BCJFilter::new_arm(0, true);
+        f.code(&mut expected);
+        let mut w = BCJWriter::new_arm(vk::Sink::<12>::new(), 0);
+        assert!(matches!(w.write(&data[..4]), Ok(4)));
+        assert!(matches!(w.write(&data[..0]), Ok(0)));
+        assert!(matches!(w.write(&data[4..]), Ok(8)));
+        let mut i = 0;
+        while i < 12 { assert!(w.inner.buf[i] == expected[i]); i += 1; }
+    }
